@@ -61,6 +61,30 @@ let () =
       Printf.sprintf "len=%x bytes=%s" (List.length bs) (sl bs)
     | _ -> failwith "dyn")
 
+(* ---------------- C09 ---------------- *)
+let dims5 s = match zlist_of_string s with
+  | [a; b; c; d; e] -> (a, b, c, d, e)
+  | _ -> failwith "dims"
+let () =
+  reg "fdim" (fun a -> match a with
+    | [d] ->
+      let (r5, r4, r3, r2, r1) = dims5 d in
+      let (((((ret, c), dim), len), fd), fl) = fdim_report r5 r4 r3 r2 r1 in
+      let ((((c0, c1), c2), c3), c4) = c in
+      Printf.sprintf "ret=%s c=%s,%s,%s,%s,%s dim=%s len=%s fdim=%s flen=%s" (hz ret) (hz c0) (hz c1) (hz c2) (hz c3) (hz c4)
+        (hz dim) (hz len) (hz fd) (hz fl)
+    | _ -> failwith "fdim");
+  (* what the dimension handling predicts for a compress(cdims)/decompress(ddims) pair *)
+  reg "c09rt" (fun a -> match a with
+    | [cd; dd] ->
+      let (r5, r4, r3, r2, r1) = dims5 cd and (s5, s4, s3, s2, s1) = dims5 dd in
+      let n = c_computeDataLength r5 r4 r3 r2 r1 and dn = c_computeDataLength s5 s4 s3 s2 s1 in
+      let f = filtered r5 r4 r3 r2 r1 and g = filtered s5 s4 s3 s2 s1 in
+      let ((((f5, f4), f3), f2), f1) = f in
+      Printf.sprintf "n=%s dn=%s same=%d wf=%d dim=%s" (hz n) (hz dn) (if f = g then 1 else 0)
+        (if wfb r5 r4 r3 r2 r1 && wfb s5 s4 s3 s2 s1 then 1 else 0) (hz (c_computeDimension f5 f4 f3 f2 f1))
+    | _ -> failwith "c09rt")
+
 let () =
   (try
     while true do
